@@ -336,7 +336,10 @@ def synthesisers():
     for nm, meth in red.items():
         def mk(r, nm=nm):
             shape = gen.choice(r, [(3,), (2, 2), (2, 3)])
-            p = P(r, shape=shape, nterms=2, maxexp=1 if nm == "prod" else 3, lim=2)
+            dt, nterms = some_dtype(r) if nm in ("sum", "prod", "cumsum", "mean") else (None, 2)
+            # coefficient dtypes other than int64 (uint8, int16, float32, bool): the spellings agree on the dtype of the
+            # result too (seeded change C08-12: only the method spelling hands where=True on)
+            p = P(r, shape=shape, nterms=max(nterms, 1), maxexp=1 if nm == "prod" else 3, lim=2, **({"dtype": dt} if dt else {}))
             axis = gen.choice(r, [None, 0, -1]) if nm not in ("argmax", "argmin") else gen.choice(r, [None, 0])
             return [p], ({} if axis is None else {"axis": axis})
         extra = []
@@ -357,7 +360,12 @@ def synthesisers():
         S[f"numpy.{nm}"] = simple(getattr(numpy, nm), nm, mk, meth, None, extra)
     S["numpy.count_nonzero"] = simple(numpy.count_nonzero, "count_nonzero", lambda r: ([P(r, shape=(2, 3))], {"axis": gen.choice(r, [None, 0])}))
     S["numpy.nonzero"] = simple(numpy.nonzero, "nonzero", lambda r: ([P(r, shape=sh(r), nterms=2)], {}), "nonzero")
-    S["numpy.reshape"] = simple(numpy.reshape, "reshape", lambda r: ([P(r, shape=(2, 3)), gen.choice(r, [(3, 2), (6,), (1, 6)])], {}), "reshape")
+    def reshape_args(r):
+        p = P(r, shape=(2, 3))
+        if r.random() < .5:
+            p = p.T         # Fortran-contiguous view: order="A" then reads it in Fortran order (seeded change C08-11)
+        return [p, gen.choice(r, [(3, 2), (6,), (1, 6)])], ({"order": gen.choice(r, ["A", "F", "C"])} if r.random() < .6 else {})
+    S["numpy.reshape"] = simple(numpy.reshape, "reshape", reshape_args, "reshape")
     S["numpy.transpose"] = simple(numpy.transpose, "transpose", lambda r: ([P(r, shape=gen.choice(r, [(2, 3), (2, 1, 3)]))], {}))
     S["numpy.moveaxis"] = simple(numpy.moveaxis, "moveaxis", lambda r: ([P(r, shape=(2, 1, 3)), 0, -1], {}))
     S["numpy.expand_dims"] = simple(numpy.expand_dims, "expand_dims", lambda r: ([P(r), int(r.integers(0, 1))], {}))
